@@ -3,7 +3,7 @@ import ast
 
 from ..core import Mutant, norm
 from .. import memo
-from ..astutil import method_call, unparse, oriented
+from ..astutil import method_call, unparse, oriented, flat
 from ..index import dotted, walk_local
 
 EXPLANATION = ("C20: header layout agreement between rend() (concatenation order code, count/number, mid, [vid], body, [sig]) "
@@ -89,7 +89,7 @@ def check(run):
     inc = bool(loop) and isinstance(loop[0].body[-1], ast.AugAssign) and isinstance(loop[0].body[-1].op, ast.Add) \
         and isinstance(loop[0].body[-1].target, ast.Name) and getattr(loop[0].body[-1].value, "value", None) == 1
     counter = loop[0].body[-1].target.id if inc else None       # the gram number is the local stepped at the end of the loop
-    init = any(isinstance(n, ast.Assign) and dotted(n.targets[0]) == counter and getattr(n.value, "value", None) == 0 for n in rend.node.body)
+    init = any(isinstance(n, ast.Assign) and dotted(n.targets[0]) == counter and getattr(n.value, "value", None) == 0 for n in flat(rend.node.body))
     returned = {dotted(n.value) for n in walk_local(rend.node) if isinstance(n, ast.Return)}
     app = bool(loop) and any(isinstance(s, ast.Expr) and isinstance(s.value, ast.Call) and (method_call(s.value) or (0, 0))[1] == "append"
                              and method_call(s.value)[0] in returned for s in loop[0].body)
@@ -98,11 +98,11 @@ def check(run):
     run.floor("C20.R5", 4)
     # rend: the gram count is computed from the byte length of the buffer that is sliced
     mparam = rend.params()[0][1]
-    mem_defs = [n for n in rend.node.body if isinstance(n, ast.Assign) and dotted(n.targets[0]) == mparam]
-    ml = [n for n in rend.node.body if isinstance(n, ast.Assign) and isinstance(n.targets[0], ast.Name) and unparse(n.value) == "len(%s)" % mparam]
+    mem_defs = [n for n in flat(rend.node.body) if isinstance(n, ast.Assign) and dotted(n.targets[0]) == mparam]
+    ml = [n for n in flat(rend.node.body) if isinstance(n, ast.Assign) and isinstance(n.targets[0], ast.Name) and unparse(n.value) == "len(%s)" % mparam]
     mlv = ml[0].targets[0].id if ml else None
     # the gram count is the ceil() expression that is later written into the zeroth head
-    cnts = [n for n in rend.node.body if isinstance(n, ast.Assign) and isinstance(n.targets[0], ast.Name)
+    cnts = [n for n in flat(rend.node.body) if isinstance(n, ast.Assign) and isinstance(n.targets[0], ast.Name)
             and any(isinstance(c, ast.Call) and (dotted(c.func) or "").endswith("ceil") for c in ast.walk(n.value))]
     ok = bool(mem_defs) and bool(ml) and "encode" in unparse(mem_defs[0].value) and mem_defs[0].lineno < ml[0].lineno \
         and bool(cnts) and all(any(isinstance(x, ast.Name) and x.id == mlv for x in ast.walk(n.value)) for n in cnts)
